@@ -40,6 +40,35 @@ var props = map[string]PropMeta{
 		Stub:   []string{"transport stub (ship engine) / simnet.Conn (ws engine)", "info provider", "scripted peer", "mDNS provider (null provider handing out the resolver callback)"},
 		QuickS: 25, ThoroughS: 480, QuickWorkers: 6,
 	},
+	"C04": {
+		Level: "exploration",
+		Rule: "histories as in C01 (role x trust x user plan incl. local close x up to 32 peer events, 10% deviant) combined with one injected transport write failure: variant a<k> = the k-th write fails and the transport reports closed afterwards (what ws does), b<k> = only the k-th write fails (what the interface permits); k enumerated 1..W+2 where W = writes of a fault-free handshake; oracle = reference SHIP state graph (written from the specification), phase order, terminal-is-final, transport closed, no activity in a 6 minute input-free period after a terminal outcome; " +
+			"non-trivial = the injected failure fired (or fault-free variant); distinct = distinct (variant, configuration, set of (state, input class)) tuples",
+		Real: ship1Real, Stub: ship1Stub,
+		QuickS: 25, ThoroughS: 420, QuickWorkers: 6,
+		Exhaustive: "index k of the single failing transport write (both failure semantics), k = 1..W+2",
+	},
+	"C14": {
+		Level: "exploration",
+		Rule: "(a) 1-50 concurrent connections parked in client-wait (a timeout there is an observable error report), each driven through up to 8 ops from {arm(1ms..60s), stop, sleep(0..30s)} via overlay wrappers around the unexported timer methods, the timer goroutine's start and select being schedule points; oracle: every delivered timeout is the newest, un-stopped timer's, at exactly its expiry (ties at the expiry instant tolerated); (b) a pending-trust handshake with a peer that answers every message and prolongation request at once, user approval after arbitrary simulated delays: no terminal state or close ever; " +
+			"non-trivial = a stop was issued (a) / pending-listen with prolongation reached (b); distinct = distinct (mode, connections, configuration, input sets)",
+		Real: ship1Real, Stub: ship1Stub,
+		QuickS: 20, ThoroughS: 420, QuickWorkers: 6,
+	},
+	"C09": {
+		Level: "exploration",
+		Rule: "one run = role x stored SHIP ID (none / equal / other / near misses / quotes and braces / long) x presented id (11 variants: equal, other, empty, prefix, trailing blank, quotes, missing, null, number, object, other member only) x order of the access-methods exchange (normal, reply first, reply twice, reply before the access phase, request+reply in one frame, no request) x trust x low-rate deviant frames and clock advances x seeded schedule; " +
+			"non-trivial = an access-methods reply was evaluated in the access-methods state; distinct = distinct (stored, presented, order, role, outcome, input set) tuples",
+		Real: ship1Real, Stub: ship1Stub,
+		QuickS: 20, ThoroughS: 360, QuickWorkers: 6,
+	},
+	"C11": {
+		Level: "exploration",
+		Rule: "SHIP level: one real connection (either role, any handshake progress up to completed) hit by 1-3 coinciding close causes drawn from {local CloseConnection safe/unsafe, peer close announce / unsolicited confirm, transport error reported by the read pump and/or concurrently by the write pump, handshake error, user abort, injected deviant frames} under seeded interleavings of pump, user, write-pump and timer tasks; HUB level: see DESIGN; oracle: exactly one HandleConnectionClosed per connection object; " +
+			"non-trivial = at least two close causes present in the run; distinct = distinct (cause set, configuration, input set) tuples",
+		Real: ship1Real, Stub: ship1Stub,
+		QuickS: 20, ThoroughS: 360, QuickWorkers: 6,
+	},
 	"C01": {
 		Level: "exploration",
 		Rule: "one run = role x trust configuration (paired/auto/none, waiting allowed or not) x peer hello mode x user plan (approve/cancel/revoke at a drawn event) x up to 32 peer events drawn from {cooperative next frame, deviant frame of 12 classes, SPINE data, clock advance 1ms..120s, transport error, close announce} x seeded interleaving of pump, user and timer tasks; " +
